@@ -161,6 +161,15 @@ def run(ck, facts):
     md = MirFn(dr)
     has = any(RAW_RE.search(C.mir_callee(t) or "") for _, t in md.calls())
     ck.expect(has, "R1", "DiplomatOwnedSlice::drop/frees", "", "Drop for DiplomatOwnedSlice no longer rebuilds the box (leak) or uses an unrecognised path", C.loc(dr))
+    # ... and releases it AS a Box<[T]> (whose drop knows that an empty boxed slice owns no allocation), never by calling the allocator / diplomat_free on the view's pointer
+    mdi = MirFn(C.inline_mir(rt, dr))
+    callees_d = [C.mir_callee(t) or "" for _, t in mdi.calls()]
+    ck.expect(any(c_.endswith("Box::from_raw") for c_ in callees_d) and not any(re.search(r"(diplomat_free|alloc::dealloc|alloc::alloc::dealloc)$", c_) for c_ in callees_d), "R4", "DiplomatOwnedSlice::drop/releases-as-box",
+              "Box::from_raw(..) dropped", "Drop for DiplomatOwnedSlice frees the buffer through %s instead of rebuilding the Box: a zero-length view holds a dangling, never-allocated pointer, handing it to the allocator is "
+              "undefined behaviour (`free(0x2)`)" % [c_.split("::")[-1] for c_ in callees_d if re.search(r"(diplomat_free|dealloc)$", c_)], C.loc(dr))
+    # diplomat_alloc / diplomat_free are entry points for the foreign side: nothing inside the runtime calls them
+    inner_callers = sorted({f["path"] for f in rt.fn_list for c_ in ((f.get("mir") or {}).get("calls") or []) if re.search(r"diplomat_runtime::diplomat_(free|alloc)$", C.norm_path(c_.get("p") or ""))})
+    ck.expect(not inner_callers, "R4", "diplomat_alloc+free/no-internal-callers", "", "the foreign-side allocator entry points are called from inside the runtime (%s): Rust-side owners release their buffers by their own type's drop" % inner_callers[:2], None)
 
     # --- R2 constructions
     def agg_fields(m, adt_suffix):
@@ -317,6 +326,22 @@ def run(ck, facts):
                           "diplomat_alloc does not return the allocator's pointer on every path (e.g. a dangling pointer for size 0) while diplomat_free still deallocates whatever it is given", C.loc(f))
             else:
                 ck.expect(on_all, "R4", f["name"] + "/every-path", "dealloc on every path", "diplomat_free skips dealloc on some path while diplomat_alloc always allocates", C.loc(f))
+
+    # --- R7 the JS runtime computes the UTF-8 byte length of a string per code point: a loop that indexes UTF-16 code units (`i < string.length`, `codePointAt(i)`) counts every
+    #     astral character twice (once as the pair, once as its trail surrogate), so the (ptr, len) view handed to Rust is longer than the encoded bytes
+    ck.rule("R7", "JS DiplomatBuf.str8 sizes its buffer from the string's code points (string iteration / TextEncoder), never from an index loop over UTF-16 code units")
+    rtm = C.read_repo("tool/templates/js/runtime.mjs")
+    m8 = re.search(r"static\s+str8\s*=\s*\(wasm,\s*string\)\s*=>\s*\{(.*?)\n    \}", rtm, re.S)
+    if not m8:
+        ck.bad("R7", "runtime.mjs/str8", "DiplomatBuf.str8 not found", "tool/templates/js/runtime.mjs")
+    else:
+        b8 = re.sub(r"//[^\n]*", "", m8.group(1))
+        unit_loop = re.search(r"for\s*\(\s*(?:let|var)\s+(\w+)\s*=\s*0\s*;\s*\1\s*<\s*string\.length\s*;\s*\1\+\+\s*\)", b8)
+        per_unit = bool(unit_loop) and re.search(r"codePointAt\(\s*%s\s*\)|charCodeAt\(\s*%s\s*\)" % (unit_loop.group(1), unit_loop.group(1)), b8) is not None and \
+            re.search(r"%s\s*(\+\+|\+=\s*1)" % unit_loop.group(1), b8[unit_loop.end():]) is None
+        by_cp = re.search(r"for\s*\(\s*(?:const|let|var)\s+\w+\s+of\s+string\s*\)|TextEncoder|encodeInto", b8) is not None
+        ck.expect(by_cp and not per_unit, "R7", "runtime.mjs/str8/length-per-code-point", "iterates code points", "DiplomatBuf.str8 measures the string with an index loop over UTF-16 code units: "
+                  "each character above U+FFFF adds the bytes of its trail surrogate as well, the view passed to Rust covers uninitialised bytes", "tool/templates/js/runtime.mjs")
 
     # --- R6 type shape
     for name in ("slices::DiplomatSlice", "slices::DiplomatSliceMut", "slices::DiplomatOwnedSlice"):
